@@ -117,7 +117,7 @@ func layoutHasSeconds(l string) bool {
 
 var rejectExprs = []string{
 	`(version "10000")`, `(version "1.10000.2")`, `(version "1.2.10000")`, `(to_version "1.x.3")`, `(t_version "a")`, `(version "")`, `(version "1..2")`,
-	`(version ".1")`, `(version "1.2.3" 0)`, `(version "1.2.3" 5)`, `(version "1.2.3" -1)`, `(version "1.2.3" "3")`, `(version 123)`, `(version)`, `(version "1" 2 3)`,
+	`(version ".1")`, `(version "1.2.")`, `(version "1.")`, `(version "1.2.3." 4)`, `(version "." 2)`, `(version "1.2.." 4)`, `(to_version "0." 2)`, `(version "1.2.3" 0)`, `(version "1.2.3" 5)`, `(version "1.2.3" -1)`, `(version "1.2.3" "3")`, `(version 123)`, `(version)`, `(version "1" 2 3)`,
 	`(version "9223372036854775808")`, `(version "1.18446744073709551617.3")`, `(version "18446744073709551616")`, `(version "1.2.18446744073709551615")`,
 	`(version "9223372036854785807.1")`, `(version "00000000000000000000010000")`, `(version "340282366920938463463374607431768211457.1")`,
 	`(version "1.2.3.10000" 4)`, `(version "1 .2")`, `(version "1.2e3")`, `(version "99999999999999999999")`,
@@ -242,6 +242,29 @@ func genC19(t *rapid.T) C19Case {
 			parts := []string{"1", "2", "3"}
 			parts[rapid.IntRange(0, 2).Draw(t, "hugeat")] = string(d)
 			return C19Case{Kind: "reject", Expr: `(` + rapid.SampledFrom(versionOps).Draw(t, "op") + ` "` + strings.Join(parts, ".") + `")`}
+		}
+		if rapid.Bool().Draw(t, "emptycomp") {
+			// an empty component at a drawn place - the front, the middle, the END - of a text that has no
+			// more components than the valid length in effect
+			n := rapid.IntRange(2, 4).Draw(t, "ec_len")
+			k := rapid.IntRange(1, n).Draw(t, "ec_parts")
+			parts := make([]string, k)
+			for i := range parts {
+				parts[i] = fmt.Sprint(rapid.IntRange(0, 12).Draw(t, "ec_val"))
+			}
+			parts[rapid.IntRange(0, k-1).Draw(t, "ec_at")] = ""
+			if k == 1 {
+				parts = []string{parts[0], ""} // "", "." are in the fixed list; here: "."
+			}
+			if rapid.Bool().Draw(t, "ec_trailing") && len(parts) < n {
+				parts = append(parts, "")
+				for i := range parts[:len(parts)-1] {
+					if parts[i] == "" {
+						parts[i] = "7"
+					}
+				}
+			}
+			return C19Case{Kind: "reject", Expr: fmt.Sprintf(`(%s "%s" %d)`, rapid.SampledFrom(versionOps).Draw(t, "op"), strings.Join(parts, "."), n)}
 		}
 		return C19Case{Kind: "reject", Expr: rapid.SampledFrom(rejectExprs).Draw(t, "reject")}
 	}
